@@ -150,7 +150,7 @@ def collect_streams(rng, tier, driver, notes):
     attempt("C08", lambda c: p_c08.gen_cases(rng, t, c, _Stats()))
 
     def c14(c):
-        p_c14.gen_cases(rng, t, c, _Stats())
+        p_c14.gen_cases(rng, t, c, _Stats(), driver)
         for l in p_c14.cpp_nonce_lines(rng, t):
             c.one(l)
     attempt("C14", c14)
